@@ -145,6 +145,10 @@ Qed.
 Lemma nat_half_128 : nat_half D128 = 170141183460469231731687303715884105728.
 Proof. reflexivity. Qed.
 
+(* the table in the model is 2^(bits-1) *)
+Lemma nat_half_pow : forall v, nat_half v = 2 ^ (dbits v - 1).
+Proof. intros []; reflexivity. Qed.
+
 Lemma pow10_20 : 10 ^ 20 = 100000000000000000000.
 Proof. reflexivity. Qed.
 
@@ -155,12 +159,11 @@ Proof.
   unfold cast_val. cbn [nty_eqb]. unfold cast_int_dec.
   change (0 <? 0) with false. cbv iota.
   change (10 ^ 0) with 1. rewrite Z.mul_1_r.
-  assert (W : wrap_native D128 x = x).
-  { unfold wrap_native. rewrite nat_half_128. rewrite Z.mod_small; lia. }
-  rewrite W.
-  assert (N1 : in_native D128 1 = true) by reflexivity. rewrite N1. cbn [negb].
   assert (N : in_native D128 x = true).
   { unfold in_native. rewrite nat_half_128. apply andb_true_iff; split; apply Z.leb_le; lia. }
+  assert (W : wrap_native D128 x = x) by (unfold wrap_native; rewrite N; reflexivity).
+  rewrite W.
+  assert (N1 : in_native D128 1 = true) by reflexivity. rewrite N1. cbn [negb].
   rewrite N. cbn [negb].
   assert (P : prec_ok D128 20 x = true).
   { unfold prec_ok. rewrite pow10_20. apply andb_true_iff; split; [reflexivity|]. apply Z.leb_le. lia. }
@@ -240,8 +243,13 @@ Lemma in_native_bounds : forall v z, in_native v z = true <-> - nat_half v <= z 
 Proof. intros; unfold in_native; rewrite andb_true_iff, !Z.leb_le; tauto. Qed.
 
 Lemma wrap_native_small : forall v z, in_native v z = true -> wrap_native v z = z.
+Proof. intros v z H. unfold wrap_native. rewrite H. reflexivity. Qed.
+
+Lemma wrap_native_spec : forall v z,
+  wrap_native v z = (z + nat_half v) mod (2 * nat_half v) - nat_half v.
 Proof.
-  intros v z H. apply in_native_bounds in H. unfold wrap_native.
+  intros v z. unfold wrap_native. destruct (in_native v z) eqn:H; trivial.
+  apply in_native_bounds in H.
   assert (0 < nat_half v) by (destruct v; reflexivity).
   rewrite Z.mod_small; lia.
 Qed.
